@@ -2,6 +2,7 @@
 # try_seed.sh <patch.diff> <property...> : apply the patch to /repo, run the checks, undo the patch
 P=$1; shift
 git -C /repo apply $P || exit 2
-for c in "$@"; do /verif/check $c 2>&1 | grep -E "^\[|VIOLATION|KNOWN|broken" | cut -c1-400; echo "rc[$c]=${PIPESTATUS[0]}"; done
+for c in "$@"; do VERIF_EVIDENCE_DIR=/verif/work/evidence_seeded /verif/check $c 2>&1 | grep -E "^\[|VIOLATION|KNOWN|broken" | cut -c1-400; echo "rc[$c]=${PIPESTATUS[0]}"; done
 git -C /repo checkout -- .
+rm -rf /verif/work/L  # lock traces of a seeded tree must not feed the translator
 for g in /verif/tools/gen_*.py; do python3 $g > /dev/null; done
